@@ -65,6 +65,61 @@ Theorem C05_results_terminates_when_complete : forall start tr polls,
 Proof. exact results_terminates_thm. Qed.
 Print Assumptions C05_results_terminates_when_complete.
 
+(* Mirrored units.  On the submitting node the record of a remote unit usually becomes final while
+   most of its output is still on its way: the producer's contract does not hold there.  Under
+   [contract_m] (the local copy exists, is never longer than a final record's size, a final record
+   stays) a session that has ended has delivered exactly output[start..], reaching the RECORDED
+   size, and whenever the start offset lies below that size the copy was complete when it ended:
+   never earlier. *)
+Theorem C05_results_exact_mirrored : forall start tr,
+  contract_m tr = true ->
+  let '(cs, fin) := results_run start tr in
+  is_prefix (concat cs) (skipn (N.to_nat start) (output_of tr)) = true /\
+  (fin = true ->
+   concat cs = skipn (N.to_nat start) (output_of tr) /\
+   results_done (w_state (world_after tr)) = true /\
+   w_size (world_after tr) <= start + rlen (concat cs) /\
+   (start < w_size (world_after tr) -> rlen (output_of tr) = w_size (world_after tr))).
+Proof. exact results_exact_mirrored_thm. Qed.
+Print Assumptions C05_results_exact_mirrored.
+
+(* ... and what the mirror does afterwards changes nothing of it *)
+Theorem C05_results_final_mirrored : forall start tr tr',
+  contract_m (tr ++ tr') = true -> snd (results_run start tr) = true ->
+  skipn (N.to_nat start) (output_of (tr ++ tr')) = skipn (N.to_nat start) (output_of tr) /\
+  snd (results_run start (tr ++ tr')) = true /\
+  fst (results_run start (tr ++ tr')) = fst (results_run start tr).
+Proof. exact results_final_mirrored_thm. Qed.
+Print Assumptions C05_results_final_mirrored.
+
+(* once the record is final and the copy has reached the recorded size the stream ends *)
+Theorem C05_results_terminates_mirrored : forall start tr polls,
+  results_done (w_state (world_after tr)) = true ->
+  w_size (world_after tr) = rlen (output_of tr) ->
+  (length (output_of tr) + 4 <= length polls)%nat ->
+  snd (results_run start (tr ++ map EPoll polls)) = true.
+Proof. exact results_terminates_mirrored_thm. Qed.
+Print Assumptions C05_results_terminates_mirrored.
+
+(* A reader whose finish condition compares the position with the current size of the stdout FILE
+   instead of the recorded size: for a local unit (producer's contract) it is the real reader ... *)
+Theorem C05_filesize_reader_same_on_local_units : forall start tr,
+  contract tr = true -> results_run_filesize start tr = results_run start tr.
+Proof. exact results_filesize_same_local_thm. Qed.
+Print Assumptions C05_filesize_reader_same_on_local_units.
+
+(* ... on a mirrored unit it ends as soon as the record is final — 2 of 5 bytes and a clean end,
+   where the real reader waits and delivers all 5: an early end *)
+Theorem C05_filesize_results_refuted :
+  contract_m early_end_witness = true /\
+  w_size (world_after early_end_witness) = 5 /\ output_of early_end_witness = [1; 2; 3; 4; 5] /\
+  results_run_filesize 0 early_end_witness = ([[1; 2]], true) /\
+  results_run 0 early_end_witness = ([[1; 2]; [3; 4; 5]], true) /\
+  ~ (forall start tr, contract_m tr = true -> snd (results_run_filesize start tr) = true ->
+       concat (fst (results_run_filesize start tr)) = skipn (N.to_nat start) (output_of tr)).
+Proof. exact results_filesize_refuted_thm. Qed.
+Print Assumptions C05_filesize_results_refuted.
+
 (* the finish condition of the pinned tree (IsComplete: Succeeded or Failed) never ends the
    results of a cancelled unit, however long the client waits; the repaired one does *)
 Theorem C05_pinned_results_refuted :
